@@ -13,8 +13,9 @@
 // is now past its TTL, then fire the loop and follow its pass.  The gate `queue.after-done` is kept
 // closed so that verdicts are observed one at a time, in the order they are signalled.
 // Forced schedules use the gates `queue.after-slot-check` (arrive-begin/arrive-end) and
-// `queue.before-remove` (hold-remove/flush-remove).  A case with `drain` runs in a child process
-// because the defect it can trigger (F06c) is a panic on the processor's own goroutine.
+// `queue.before-remove` (hold-remove/flush-remove) and `queue.before-repush` (tick-hold/tick-release).
+// Every case runs in a child process: a panic on the processor's own goroutine (e.g. a second
+// WaitGroup.Done, the former defect F06c) is then an observation, not the end of the run.
 package main
 
 import (
@@ -681,8 +682,8 @@ func (s *sim) flush() string {
 
 func (s *sim) drain() string {
 	// StopAll visits every entry of the watch list.  Entries still waiting are released (one Done
-	// each, followed through the gate); an entry that already has its verdict (removal held back) gets
-	// a second Done on the unchanged code: panic on the processor's goroutine, the process dies and
+	// each, followed through the gate); an entry that already has its verdict (removal held back) must
+	// be left alone — a second Done would panic on the processor's goroutine: the process dies and
 	// the parent reports it.
 	n, done := 0, 0
 	for _, r := range s.reqs {
@@ -1148,7 +1149,7 @@ func genSequential(r *prng.R, long bool) []string {
 	return ops
 }
 
-// overlapping arrivals through the gate after the slot test (F06b class)
+// overlapping arrivals through the gate after the slot reservation (former F06b class: the bound must hold)
 func genOverlap(r *prng.R) []string {
 	size := r.Range(1, 2)
 	ops := []string{genCfg(r, size, 2, r.Range(1, 3), r.Range(1, 2))}
@@ -1177,7 +1178,8 @@ func genOverlap(r *prng.R) []string {
 	return ops
 }
 
-// removals held back (gate before removal): slot leak until flushed; optionally shutdown meanwhile
+// removals held back (gate before removal): slots stay taken until flushed; optionally shutdown
+// meanwhile (former F06c class: StopAll must skip entries that already have their verdict)
 func genHold(r *prng.R, withDrain bool) []string {
 	size := r.Range(1, 3)
 	ops := []string{genCfg(r, size, 2, r.Range(1, 2), r.Range(1, 2))}
@@ -1191,7 +1193,7 @@ func genHold(r *prng.R, withDrain bool) []string {
 	}
 	lo := 0
 	if withDrain {
-		lo = 1 // a verdict before shutdown: with removals held this is the F06c class
+		lo = 1 // a verdict before shutdown: with removals held this is the former F06c class
 	}
 	for t := r.Range(lo, 3); t > 0; t-- {
 		ops = append(ops, "tick")
@@ -1288,7 +1290,8 @@ func genBoundary(r *prng.R) []string {
 	return append(ops, "idle ms=1150", "tick", "tick")
 }
 
-// same priority, quota 1 per window, pairs of arrivals: the refused head is pushed back (F06a class)
+// same priority, quota 1 per window, pairs of arrivals: the refused head is pushed back and must keep
+// its place (former F06a class)
 func genFifo(r *prng.R) []string {
 	ops := []string{genCfg(r, r.Range(2, 4), 2, 1, 1)}
 	id := 0
